@@ -78,7 +78,9 @@ func (core *JApiCore) next(lexeme scanner.Lexeme) *jerr.JApiError {
 		return nil
 
 	case scanner.ContextExplicitOpening:
-		if core.currentDirective == nil {
+		// A directive has one context to open: a second "(" has no directive to belong to (it was silently
+		// dropped, which left a parenthesis open at the end of the input unnoticed).
+		if core.currentDirective == nil || core.currentDirective.HasExplicitContext {
 			return lexemeWithoutDirective(lexeme)
 		}
 		core.processContextBegin()
